@@ -105,7 +105,7 @@ func checkC17(c *Ctx) (int, error) {
 			cs.Insts = append(cs.Insts, InstSpec{Role: role, Set: set, Data: DataSpec{Class: "text", Seed: int64(k), Len: 40 + 10*k}})
 		}
 		if i%2 == 1 {
-			cs.Hammer = perHam / 10 // under the race detector everything is ten times slower
+			cs.Hammer = 2000 // under the race detector everything is much slower, and a case has a time limit
 		}
 		add(cs, i%2 == 1)
 		c.ev.nontrivial(fmt.Sprintf("hammer%d", i))
